@@ -43,15 +43,15 @@ def required_cells(tier):
 
 
 def gen_case(rng, big=False, force_neg=False):
-    """big: 22..60 files over 1..2 contents (a vendored header copied many times)."""
+    """big: 45..70 files with one content (a vendored header copied many times)."""
     ndirs = rng.randint(0, 3)
     dirs = [""] + [f"d{i}" for i in range(ndirs)] + (["d0/sub"] if ndirs and rng.random() < 0.5 else [])
     if rng.random() < 0.3:
         dirs += [rng.choice([".ci", ".devcontainer/helpers", "d0/.hidden"])]       # directories whose names start with a dot
-    npool = rng.randint(1, 6) if not big else rng.randint(1, 2)
+    npool = rng.randint(1, 6) if not big else 1
     pool = rng.sample(range(len(POOL)), npool)
     files = {}
-    for i in range(rng.randint(2, 14) if not big else rng.randint(22, 60)):
+    for i in range(rng.randint(2, 14) if not big else rng.randint(45, 70)):
         d = rng.choice(dirs)
         name = f"f{i}{rng.choice(EXTS)}"
         files[os.path.join(d, name)] = rng.choice(pool)
